@@ -12,6 +12,7 @@ import subprocess
 import sys
 import time
 from concurrent.futures import ThreadPoolExecutor
+from ._util import spread_preexec
 
 VERIF = os.path.dirname(os.path.dirname(os.path.abspath(__file__)))
 REPO = os.environ.get("VERIF_REPO", "/repo")
@@ -75,7 +76,7 @@ def lib_key(cfg):
 
 
 def _run(cmd, log):
-    p = subprocess.run(cmd, stdout=subprocess.PIPE, stderr=subprocess.STDOUT, text=True)
+    p = subprocess.run(cmd, stdout=subprocess.PIPE, stderr=subprocess.STDOUT, text=True, preexec_fn=spread_preexec())
     if p.returncode != 0:
         raise BuildError("command failed: %s\n%s" % (" ".join(cmd), p.stdout[-6000:]))
     return p.stdout
@@ -86,7 +87,7 @@ def _deps(msrc, flags):
     rebuilds only the monitors that include it"""
     cmd = ["g++"] + [f for f in flags if not f.startswith("-fsanitize") and f != "--coverage"] + \
           ["-I", INC, "-I", os.path.join(HARNESS, "common"), "-MM", msrc]
-    p = subprocess.run(cmd, stdout=subprocess.PIPE, stderr=subprocess.PIPE, text=True)
+    p = subprocess.run(cmd, stdout=subprocess.PIPE, stderr=subprocess.PIPE, text=True, preexec_fn=spread_preexec())
     if p.returncode != 0:
         raise BuildError("dependency scan failed: %s\n%s" % (" ".join(cmd), p.stderr[-4000:]))
     toks = p.stdout.replace("\\\n", " ").split()
